@@ -160,6 +160,14 @@ def lp_tree(r, big=False):
     for v in ints:
         if v not in bounded and r.random() < .5:
             bounds.insert(r.randint(0, len(bounds)), dict(k="u", var=v, up=dict(neg=False, inf=True, lit=[])))
+        elif v not in bounded and r.random() < .6:
+            lit = lambda t, neg=False: dict(neg=neg, inf=False, lit=chars(t))
+            shape = r.choice([dict(k="lu", var=v, lo=lit("1", True), up=lit("1")),                       # -1 <= v <= 1
+                              dict(k="lu", var=v, lo=dict(neg=True, inf=True, lit=[]), up=lit("1")),     # -inf <= v <= 1
+                              dict(k="lu", var=v, lo=lit("0"), up=lit("1")),                             # explicit binary
+                              dict(k="lu", var=v, lo=lit("2"), up=lit("5")),
+                              dict(k="lu", var=v, lo=lit("1"), up=lit("1"))])                            # fixed at 1
+            bounds.insert(r.randint(0, len(bounds)), shape)
     return dict(minmax=r.choice(["MAX", "MAXIMUM", "MAXIMIZE", "MIN", "MINIMUM", "MINIMIZE"]),
                 obj=dict(name=("" if r.random() < .5 else "cost"), terms=obj), rows=rows, bounds=bounds, ints=ints)
 
@@ -305,6 +313,24 @@ def mps_tree(r, big=False):
             bounds.append(dict(t=t, col=c, val=num()))       # second definition of the same side: the first one wins
         if t == "LI" and bounds[-1]["val"] and lit_value("".join(bounds[-1]["val"])) > 0 and r.random() < .5:
             bounds[-1]["val"] = chars("-" + "".join(bounds[-1]["val"]).lstrip("-"))
+    # integer columns: the shapes around the "an integer column without bounds is binary" rule
+    bcols = {b["col"] for b in bounds}
+    for e in entries:
+        if e["integer"] and e["col"] not in bcols and r.random() < .6:
+            sh = r.choice(["t", "mi1", "b01", "25", "pl", "lo0"])
+            c = e["col"]
+            if sh == "t":
+                bounds += [dict(t="LO", col=c, val=chars("-1")), dict(t="UP", col=c, val=chars("1"))]
+            elif sh == "mi1":
+                bounds += [dict(t="MI", col=c, val=[]), dict(t="UP", col=c, val=chars("1"))]
+            elif sh == "b01":
+                bounds += [dict(t="LO", col=c, val=chars("0")), dict(t="UP", col=c, val=chars("1"))]
+            elif sh == "25":
+                bounds += [dict(t="LO", col=c, val=chars("2")), dict(t="UP", col=c, val=chars("5"))]
+            elif sh == "pl":
+                bounds += [dict(t="PL", col=c, val=[])]
+            else:
+                bounds += [dict(t="LO", col=c, val=chars("0"))]
     # OBJNAME section: names the N row that is the objective (otherwise the first N row of the ROWS section is)
     objname = ""
     k = r.random()
